@@ -208,6 +208,29 @@ char *bad_OUT7_wrong_key(const unsigned char *path, const unsigned char *k, cons
 char *good_sized(const char *a, const char *b) { char *v = (char*)cJSON_malloc(strlen(a) + strlen(b) + 2); sprintf(v, "%s/%s", a, b); return v; }
 char *good_index(const char *a, size_t i) { char *v = (char*)cJSON_malloc(strlen(a) + 20 + sizeof("/")); sprintf(v, "%s/%lu", a, (unsigned long)i); return v; }
 
+/* TAB18 / ORD1 */
+static cJSON_bool decode_index(const unsigned char * const pointer, size_t * const index) { *index = (size_t)(pointer[0] - '0'); return 1; }
+static cJSON *get_item_from_pointer(cJSON * const object, const char * pointer, const cJSON_bool case_sensitive) { (void)pointer; (void)case_sensitive; return object ? object->child : NULL; }
+static cJSON *detach_path(cJSON *object, const unsigned char *path, const cJSON_bool case_sensitive) { (void)path; (void)case_sensitive; return object ? object->child : NULL; }
+cJSON *bad_TAB18_narrow(cJSON *array, const unsigned char *p) { size_t index = 0; if (!decode_index(p, &index)) { return NULL; } return cJSON_GetArrayItem(array, (int)index); }
+cJSON *good_wide(cJSON *array, const unsigned char *p) { size_t index = 0; cJSON *c = array->child; if (!decode_index(p, &index)) { return NULL; } while ((c != NULL) && (index > 0)) { index--; c = c->next; } return c; }
+int bad_ORD1_stale(cJSON *object, const char *to, const unsigned char *from)
+{
+    cJSON *parent = get_item_from_pointer(object, to, 1);
+    cJSON *value = detach_path(object, from, 1);
+    if ((parent == NULL) || (value == NULL)) { return 1; }
+    cJSON_AddItemToArray(parent, value);
+    return 0;
+}
+int good_order(cJSON *object, const char *to, const unsigned char *from)
+{
+    cJSON *value = detach_path(object, from, 1);
+    cJSON *parent = get_item_from_pointer(object, to, 1);
+    if ((parent == NULL) || (value == NULL)) { return 1; }
+    cJSON_AddItemToArray(parent, value);
+    return 0;
+}
+
 int utils_bad_use_all(cJSON *o, unsigned char *b, char *c)
 {
     (void)compare_pointers(b, b, 1); decode_pointer_inplace(b); (void)apply_patch(o, o, 1);
